@@ -72,6 +72,10 @@ def gen_cases(seed, tier):
             cases.append(G.gen_varsets_group(rng))
         else:
             cases.append(G.gen_staticof_group(rng))
+    # two conditions on ONE DeepONet object, each with its own function set (evaluated with the same iteration number)
+    rng2 = np.random.default_rng([seed, 14, 1])
+    for i in range(14 if tier == "quick" else 400):
+        cases.append(G.gen_group_case(rng2, force_kinds=["pideeponet", "pideeponet"]))
     return cases
 
 
@@ -224,6 +228,15 @@ def _build(g, i, world, shared, watch):
         kw["residual"] = (fn, dfl)
     if c["kind"] == "pideeponet":
         net, twin, fs = W.build_deeponet(c, world, trace)
+        if True:
+            # conditions generated on the same architecture share ONE DeepONet object (per world: in company only), each
+            # with its own function set
+            reg = world.__dict__.setdefault("don_nets", {})
+            key = json.dumps([c["model"], {q: c["don"][q] for q in ("fvars", "kvar", "fout", "disc_n", "neurons")}], sort_keys=True)
+            if key in reg:
+                net, twin = reg[key]
+            else:
+                reg[key] = (net, twin)
         W.seed_sampler(fs.parameter_sampler, c["seed"] % (2 ** 30))
         kw["model"] = (net, twin)
         kw["fset"] = fs
